@@ -1136,7 +1136,7 @@ impl Check for C05
 	}
 	fn rule(&self) -> String
 	{
-		"function bodies over {var declaration, use in a call, use in an if condition, read-modify-write, label, goto, if-goto, block, if-block, if-else-blocks}: (a) every body of <= 5 (quick) / <= 6 (thorough) nodes, nesting <= 3, 2 variable names and 1 label name (exhaustive); (b) random bodies (label structure repaired to be valid by construction) up to 30 nodes with 3 variable names, the parameter name, a constant name, an undeclared name, 2 labels, `goto return`, and a use in the return value; (c) structured skip patterns: goto(s), declarations, label and uses in every relative order and nesting. Bodies whose label structure is invalid are discarded (C04's subject) and counted. Oracle 1 (static): an independent positional model predicts the set {E402, E422, E482}; verdict and the scoping subset of Errors::codes() must equal it. Oracle 2 (dynamic, independent of oracle 1): every ACCEPTED body is interpreted for p=0 and p=1 by a scope-aware interpreter that fails if a variable is read whose declaration did not execute; a sample is also run with lli and compared on stdout. Non-trivial: a goto/label pair spanning a declaration, or a use nested >= 2 blocks deep; distinct by body.".into()
+		"function bodies over {var declaration, use in a call, use in an if condition, read-modify-write, label, goto, if-goto, block, if-block, if-else-blocks}: (a) every body of <= 5 (quick) / <= 6 (thorough) nodes, nesting <= 3, 2 variable names and 1 label name (exhaustive); (b) random bodies (label structure repaired to be valid by construction) up to 30 nodes with 3 variable names, the parameter name, a constant name, an undeclared name, 2 labels, `goto return`, and a use in the return value; (c) structured skip patterns: goto(s), declarations, label and uses in every relative order and nesting. Every body is surrounded by one of three neighbourhoods chosen by its hash: nothing, two function heads whose parameters carry the body's variable names, or another function with variables and parameters of the same names (none of which is in scope). Bodies whose label structure is invalid are discarded (C04's subject) and counted. Oracle 1 (static): an independent positional model predicts the set {E402, E422, E482}; verdict and the scoping subset of Errors::codes() must equal it. Oracle 2 (dynamic, independent of oracle 1): every ACCEPTED body is interpreted for p=0 and p=1 by a scope-aware interpreter that fails if a variable is read whose declaration did not execute; a sample is also run with lli and compared on stdout. Non-trivial: a goto/label pair spanning a declaration, or a use nested >= 2 blocks deep; distinct by body.".into()
 	}
 	fn assumptions(&self) -> Vec<String>
 	{
